@@ -31,6 +31,13 @@ Definition axis_ok (v : V) : bool :=
 (* normalize_v3 on an axis-aligned row: exact (the zero row stays zero) *)
 Definition axis_nrm (v : V) : V := let '(x, y, z) := v in (qsgn x, qsgn y, qsgn z).
 
+(* normalize_v3 as the lattice model runs it: exact on axis-aligned rows; any other row (an edge
+   vector) is returned as it is, i.e. multiplied by its positive length instead of divided by it.
+   Positive factors on the two edges only scale their cross product by a positive factor
+   (Proofs/Normals.cross_scale), which the exact normalisation of the axis-aligned face normal
+   removes again. *)
+Definition lattice_nrm (v : V) : V := if axis_ok v then axis_nrm v else v.
+
 (* N is, up to 2^-16, the unit vector in the direction of S (S <> 0) *)
 Definition tol : Qc := zq 1 65536.
 Definition tol2 : Qc := zq 1 4294967296.
@@ -71,7 +78,7 @@ Definition case_ok (c : case) : bool :=
   | NormCase vden verts tris oden face_obs n_obs nidx_obs =>
       let P := map (qv vden) verts in
       let faces := map (face_cross qc_ops P) tris in
-      let sums := gen_sums qc_ops axis_nrm (code_accumulate qc_ops) P tris in
+      let sums := gen_sums qc_ops lattice_nrm (code_accumulate qc_ops) P tris in
       forallb (in_range (length verts)) tris &&
       forallb axis_ok faces &&
       (* implicit per-triangle normal: three equal rows, the unit right-hand normal *)
